@@ -22,6 +22,8 @@ THOROUGH = QUICK + [
 
 
 def run(ctx):
+    if getattr(ctx, "replay_path", None):
+        return pc.replay(ctx, "C03", "t")
     n = 400000 if ctx.thorough else 40000
     rnd = [("rnd-plain", n, ["req=0:3115b50900", "req=1:3115b50900", "buslost=1", "lock=5"]),
            ("rnd-enh", n, ["enhanced=1", "req=0:3115b50900", "buslost=1"])]
